@@ -306,6 +306,10 @@ def finish(ctx, level_text=""):
                                      "note": "a proof obligation, table, inventory or the model/implementation correspondence no longer checks; the search over the generators found no input on which the property itself fails"})
         print("VIOLATION property=%s replay=%s no-failing-input-found" % (ctx.prop, replay))
         rc = 1
+    if rc == 0:
+        stale = os.path.join(VERIF, "replays", "%s-seed%d-%s.json" % (ctx.prop, ctx.seed, ctx.tier))
+        if os.path.exists(stale):
+            os.remove(stale)
     obligations = len(ctx.obligations)
     discharged = sum(1 for o in ctx.obligations if o[1])
     ev = {
